@@ -34,7 +34,8 @@ Inductive case : Set :=
 | CUnfold (i : nat) (src expected : string)              (* _unfold_continuations *)
 | CDedent (i : nat) (src : string) (expected : option string)   (* dedent_block; None = raises Unsupported *)
 | CSafe (i : nat) (src : string) (expected : bool)       (* guard vs the harness' classifier *)
-| CLam (i : nat) (nodes : list node) (d : nat) (spec : sigt) (expected : option nat).  (* id found / raises *)
+| CLam (i : nat) (lead : nat) (nodes : list node) (d : nat) (spec : sigt) (expected : option nat).
+    (* nodes: the file's own table (file line numbers); lead: leading whitespace-only lines of the file; id found / raises *)
 
 Definition check_case (c : case) : bool :=
   match c with
@@ -47,14 +48,14 @@ Definition check_case (c : case) : bool :=
       | _, _ => false
       end
   | CSafe _ s e => Bool.eqb (unfold_safe (la s)) e
-  | CLam _ nodes d spec e =>
-      match select select_rules span_ops match_components nodes d spec, e with
+  | CLam _ lead nodes d spec e =>
+      match select_in_file select_rules span_ops match_components parse_norm lead nodes d spec, e with
       | Found l, Some n => l_id l =? n
       | Raised, None => true
       | _, _ => false
       end
   end.
 Definition case_index (c : case) : nat :=
-  match c with CLex i _ _ | CUnfold i _ _ | CDedent i _ _ | CSafe i _ _ | CLam i _ _ _ _ => i end.
+  match c with CLex i _ _ | CUnfold i _ _ | CDedent i _ _ | CSafe i _ _ | CLam i _ _ _ _ _ => i end.
 Definition failing (cs : list case) : list nat :=
   map case_index (filter (fun c => negb (check_case c)) cs).
